@@ -36,6 +36,31 @@ SEEDS = {
  "C16-rle-analyze-run-size-helper": (["C16", "C03"], None, None),
  "C17-pfor-static-scratch": (["C17"], None, None),
  "C18-dictbuild-capacity-before-realloc": (["C18"], None, None),
+ # ---- batch 3 (agents were told which place earlier seeds had already used) ----
+ "C01-chained-len-clz-56-bits": (["C01", "C04"], "varintChainedVarintLen rewritten with count-leading-zeros; its 9-byte early-out uses bits >= 56 instead of > 56, so the predictor says 9 where encoder and decoder use 8",
+                                 "values with exactly 56 significant bits"),
+ "C03-elias-delta-max-bytewise-rounding": (["C03"], "varintEliasDeltaMaxBytes rewritten as count*9 + count/2 (76 bits = 9.5 bytes): rounds the half byte down, one byte short for odd counts; the companion Gamma rewrite is exactly equivalent",
+                                           "odd count of values >= 2^63 and a buffer of exactly the bound"),
+ "C03-for-encode-wide-store-spill": (["C03", "C13"], "varintFOREncode packs offsets with 8-byte wide stores guarded by perWord = 8 / width (rounds down): widths 3, 5, 6, 7 spill 1-3 bytes past varintFORSize",
+                                     "offset width 3, 5, 6 or 7 and a buffer of exactly varintFORSize bytes"),
+ "C06-bitmap-range-inclusive-65536": (["C06"], "fitsInBitmapRange uses maxValue <= 65536; the BITMAP arm of the encoder skips values >= 65536, so the last element is dropped",
+                                      "ascending duplicate-free dense array whose maximum is exactly 65536"),
+ "C08-runs-extend-last-run-wraps": (["C08"], "varintBitmapAdd on a RUNS container extends the last run in place (length++); the uint16_t length wraps when [0,65535) grows by one",
+                                    "AddRange(0,65535) on an empty set followed by Add(65535)"),
+ "C10-pairdecode-cols-at-cols-offset": (["C10"], "varintDimensionPairDecode reads the column count at pair + widthCols instead of pair + widthRows",
+                                        "row-count and column-count widths differ; typed accessor; row >= 1"),
+ "C12-external-add-decrement-fastpath": (["C12"], "varintExternalAdd_ returns through varintExternalPut for add <= 0 before the grow / no-grow guard: a negative sum is stored as 8 bytes into a narrower slot by the no-grow form",
+                                         "no-grow add, negative amount, stored + amount < 0, slot narrower than 8 bytes"),
+ "C13-rle-decode-short-run-fastpath": (["C13"], "varintRLEDecode gains a fast path for runs of length 1 or 2 that bypasses the capacity clamp",
+                                       "capacity smaller than the stored count with a run of exactly 2 straddling the capacity"),
+ "C14-bitmap-decode-runs-bound-wraps": (["C14"], "varintBitmapDecode's RUNS bound check multiplies numRuns by a uint32_t constant instead of dividing len: wraps modulo 2^32",
+                                        "hostile numRuns >= 2^30 whose product wraps below the remaining length"),
+ "C15-bp128-partial-advance-from-bitpos": (["C15", "C03", "C16"], "varintBP128Encode32's partial block advances by bitPos/8 + 1 instead of ceil(bits/8): when the bits end on a byte boundary the returned length covers a byte never written",
+                                           "count % 128 != 0, (count % 128) * bitWidth a multiple of 8, dirty destination buffer"),
+ "C16-pfor-exception-count-shortcut": (["C16", "C03"], "varintPFORComputeThreshold computes exceptionCount as count - 1 - thresholdIndex instead of counting values above the threshold",
+                                       "duplicates of the percentile value beyond the threshold index"),
+ "C18-array-grow-realloc-in-place": (["C18"], "arrayEnsureCapacity_ assigns realloc's result straight to the values field: on failure the old array is leaked and the field is NULL with cardinality > 0",
+                                     "allocation failure exactly at the array growth realloc"),
 }
 
 
@@ -45,14 +70,16 @@ def demo_cmd(src, prop, tree, sdir):
     lines = [l.strip().lstrip("*").strip() for l in head.splitlines()]
     cmd = ""; grab = False
     for l in lines:
-        if re.match(r"(cc|gcc|clang)\s", l) and not cmd: grab = True
+        if re.match(r"(\w+=\S+;\s*)?(cc|gcc|clang)\s", l) and not cmd: grab = True
         if grab:
             cmd += " " + l.rstrip("\\").strip()
             if not l.endswith("\\"): break
     cmd = cmd.strip()
     if "&&" in cmd: cmd = cmd.split("&&")[0].strip()
-    wt = "/tmp/wt-%s" % prop
+    m2 = re.search(r"/tmp/w[t2]-[A-Za-z0-9]+", cmd)
+    wt = m2.group(0) if m2 else "/tmp/wt-%s" % prop
     cmd = cmd.replace(wt + "/_seed/demo.c", os.path.join(sdir, "demo.c")).replace(wt + "/_seed/demo", os.path.join(tree, "_demo")).replace(wt, tree)
+    cmd = re.sub(r"(?<![\w/])_seed/demo\.c", os.path.join(sdir, "demo.c"), cmd); cmd = re.sub(r"(?<![\w/.])src/", tree + "/src/", cmd); cmd = re.sub(r"-I ?src\b", "-I" + tree + "/src", cmd)
     if "-o " not in cmd: cmd += " -o " + os.path.join(tree, "_demo")
     return cmd
 
